@@ -10,7 +10,10 @@ NOTE_COMMON = ("Trusted: Lean 4.33 kernel (axioms audited per theorem on every r
                "implementation on the same operation stream (harness rebuilt from /repo's working tree); nom 7.1.3 / "
                "heapless 0.7.17 / core semantics as modelled (DESIGN.md section 8). Every line is also fed to a twin parser "
                "built with Default::default(); the private parser state read from {:?} is believed only after probing "
-               "(DESIGN.md 11.6); an internal error of a judge is reported as a correspondence failure, never as a pass.")
+               "(DESIGN.md 11.6); an internal error of a judge is reported as a correspondence failure, never as a pass. Every check also "
+               "runs the shared systematic stage (DESIGN.md 5.3c: parser-state classes x event classes x per-line decode flags, long "
+               "gaps, groups beyond 2^16 bytes; payloads of 2^13+d / 2^14+d bytes for every type) and the coverage-guided exploration "
+               "stage (5.3b), both judged on this property's projection, implementation vs model, in all three builds.")
 
 # id -> (claimed?, level text, technique, design_ref, extra note)
 PROPS = {
@@ -32,12 +35,14 @@ PROPS = {
             "Lean 4 refinement theorem parseMessage_eq + per-layout table theorems; one-hot bit walks in the correspondence", "7/C04", ""),
     "C05": ("In-order fragments reassemble to the unfragmented message: theorem over the model's step function for any "
             "initial state, with no-trace lines interleaved; implementation checked relationally (second parser gets the payload unfragmented).",
-            "Lean 4 theorem by induction over the fragment list; relational check on implementation histories", "7/C05", ""),
+            "Lean 4 theorems by induction over the fragment list, also for histories in which every line carries its own decode flag "
+            "(in_order_reassembly_flags); relational check on implementation histories", "7/C05", ""),
     "C06": ("The parser refines the abstract group automaton (Option of an open group) for every history; exhaustive short "
             "histories and random long ones compared with the automaton and with the model state.",
             "Lean 4 refinement/invariant by induction over histories; exhaustive bounded histories for the tie", "7/C06", ""),
     "C07": ("render/parse theorem: the sentence model returns exactly the transmitted fields; decode flag only adds the message.",
-            "Lean 4 theorems over the sentence-grammar model; field-by-field comparison with a reference reader", "7/C07", ""),
+            "Lean 4 theorems over the sentence-grammar model (incl. result_depends_on_own_flag_only for per-line decode flags); "
+            "field-by-field comparison with a reference reader", "7/C07", ""),
     "C08": ("Accepted language characterised: sentence-level acceptance of the model iff the Shape predicate of the statement.",
             "Lean 4 theorem (grammar inversion); single-point mutations and near-misses in the correspondence", "7/C08", ""),
     "C09": ("Spec.decode dispatches on field(bs,0,6): kind table, own type field, error for the 41 unsupported values, no panic - all proved; "
